@@ -3,6 +3,8 @@ PROP = dict(
         workloads=[
             dict(name="liquidity-orders", go_test="TestC07", runner="C07",
                  env=dict(quick=dict(VERIF_CASES=40), thorough=dict(VERIF_CASES=800))),
+            dict(name="keeper-f1", go_test="TestC05KeeperHunt", runner="C07",
+                 env=dict(quick=dict(VERIF_CASES=2), thorough=dict(VERIF_CASES=20))),
         ],
         rule="case = (3 apps with swap fee rate drawn from {0, 0.003, 0.3} and market-making tick counts {2,3,10}, 1-3 pairs per app so that app id "
              "and pair id vary independently over {1,2,3}x{1,2,3}, optional basic pool per pair, then 3-8 batches of 10-40 ops: limit / market / "
@@ -21,7 +23,7 @@ PROP = dict(
              "advanced (ApplyFuncIfNoError swallows errors and panics: a rolled-back batch leaves no other trace). The runner diffs NewUserOrder's output against "
              "Liquidity.user_order_amm of the stored record, the set of orders put on the book against Liquidity.on_book, the applied fills against the engine's, the "
              "executed flags against Liquidity.end_block_trace, and evaluates holds_C05_life (a batch's payment <= REMAINING offer coin before it, matched <= open "
-             "amount) on the engine's and on the applied fills, holds_C07_life / holds_C07_life_step on every observed order record. Cases 0 and 1 start with the regression history of C07-F1 (market-making orders in app 2 / pair 1 resp. app 1 / "
+             "amount) on the engine's and on the applied fills, holds_C07_life / holds_C07_life_step on every observed order record. Workload keeper-f1 = the directed search of C05 (known finding C05-F1 reached through the keeper by one limit order against small pools at low prices) judged by the C07 predicates: the escrow decomposition relative to the recorded fills (kf_C05_1_via_fills) and the executed flags (kf_C05_2_stall). Cases 0 and 1 start with the regression history of C07-F1 (market-making orders in app 2 / pair 1 resp. app 1 / "
              "its highest pair: place, next batch MsgCancelMMOrder, place again, replace by a second MsgMMOrder)",
         modelled=["the matching engine (amm.Match / FindMatchPrice, C05's subject): the fills of every batch (order id, matched amount, paid offer coin, "
                   "received demand coin), the pools' net reserve changes and the dust are read off the implementation's records and enter the model as ENV; "
